@@ -22,6 +22,7 @@ import (
 	"github.com/zitadel/saml/pkg/provider/key"
 	"github.com/zitadel/saml/pkg/provider/xml/md"
 	"github.com/zitadel/saml/pkg/provider/xml/samlp"
+	"github.com/zitadel/saml/pkg/provider/xml/xml_dsig"
 
 	"verif/harness/internal/c18"
 	"verif/harness/internal/coqgen"
@@ -595,6 +596,117 @@ func Run(dir, tier string, seed int64) error {
 			id++
 		}
 	}
+	// ---- the validity-window check (hook VerifCheckRequestTime) against the generated Gallina: the clock and time.Parse are
+	// oracles; every instant used is at least an hour away from now, so the answer does not depend on when exactly the check reads the clock
+	{
+		nowT := time.Now().UTC()
+		pool := []string{"", "x", "2001-01-01T00:00:00Z", "2001-01-01", "2099-12-31T23:59:59.999999Z", nowT.Add(-2 * time.Hour).Format(provider.DefaultTimeFormat), nowT.Add(2 * time.Hour).Format(provider.DefaultTimeFormat),
+			nowT.Add(-90 * time.Minute).Format(time.RFC3339), "2001-01-01T00:00:00+01:00", " 2001-01-01T00:00:00Z", "2001-13-01T00:00:00Z", "2001-01-01T00:00:00.123456789Z"}
+		var parses []string
+		for _, v := range pool {
+			if tt, err := time.Parse(provider.DefaultTimeFormat, v); err == nil {
+				parses = append(parses, fmt.Sprintf("(%s, Some %s)", coqgen.Bytes(v), coqgen.Z(tt.UnixNano())))
+			} else {
+				parses = append(parses, fmt.Sprintf("(%s, None)", coqgen.Bytes(v)))
+			}
+		}
+		for _, nb := range pool {
+			for _, noa := range pool {
+				err := provider.VerifCheckRequestTime(nb, noa, provider.DefaultTimeFormat)
+				obs := "None"
+				if err != nil {
+					obs = "(Some " + coqgen.Bytes(strings.SplitN(err.Error(), ":", 2)[0]) + ")"
+				}
+				run.Res.Evaluations++
+				run.Count(fmt.Sprintf("time-check refused=%v", err != nil))
+				run.AddCase(id, fmt.Sprintf("KTime %s %s %s %s %s %s %s", coqgen.Z(int64(id)), coqgen.Z(nowT.UnixNano()), coqgen.List(parses), coqgen.Bytes(nb), coqgen.Bytes(noa), coqgen.Bytes(provider.DefaultTimeFormat), obs),
+					map[string]interface{}{"not_before": nb, "not_on_or_after": noa, "error": fmt.Sprint(err)})
+				id++
+			}
+		}
+	}
+	// ---- when a signature / certificate has to be checked (hook VerifSignatureNecessary) against the generated Gallina (Gen/Nec.v)
+	{
+		flags := []string{"", "true", "1", "false", "TRUE", "0"}
+		certPool := []string{"", "CERT", "X", "CE RT", "CERT\n", " C\tE\r\nRT ", "cert"}
+		var norms []string
+		for _, c := range certPool {
+			norms = append(norms, fmt.Sprintf("(%s, %s)", coqgen.Bytes(c), coqgen.Bytes(strings.Join(strings.Fields(c), ""))))
+		}
+		nn := 400
+		if tier == "thorough" {
+			nn = 4000
+		}
+		optB := func(v *string) string {
+			if v == nil {
+				return "None"
+			}
+			return "(Some " + coqgen.Bytes(*v) + ")"
+		}
+		for k := 0; k < nn; k++ {
+			var idpM *md.IDPSSODescriptorType
+			var idpC *string
+			if r.Intn(6) != 0 {
+				f := flags[r.Intn(len(flags))]
+				idpM = &md.IDPSSODescriptorType{WantAuthnRequestsSigned: f}
+				idpC = &f
+			}
+			var spM *md.EntityDescriptorType
+			spC := "None"
+			if r.Intn(6) != 0 {
+				spM = &md.EntityDescriptorType{}
+				spC = "(Some None)"
+				if r.Intn(6) != 0 {
+					f := flags[r.Intn(len(flags))]
+					d := &md.SPSSODescriptorType{AuthnRequestsSigned: f}
+					var kds []string
+					for n := r.Intn(3); n > 0; n-- {
+						var xs []string
+						kd := md.KeyDescriptorType{}
+						for m := r.Intn(3); m > 0; m-- {
+							c := certPool[r.Intn(len(certPool))]
+							kd.KeyInfo.X509Data = append(kd.KeyInfo.X509Data, xml_dsig.X509DataType{X509Certificate: c})
+							xs = append(xs, c)
+						}
+						d.KeyDescriptor = append(d.KeyDescriptor, kd)
+						kds = append(kds, coqgen.BytesList(xs))
+					}
+					spM.SPSSODescriptor = d
+					spC = fmt.Sprintf("(Some (Some (%s, %s)))", coqgen.Bytes(f), coqgen.List(kds))
+				}
+			}
+			var sigM *xml_dsig.SignatureType
+			sigC := "None"
+			if r.Intn(4) != 0 {
+				sigM = &xml_dsig.SignatureType{}
+				sigM.SignatureValue.Id = []string{"", "id"}[r.Intn(2)]
+				sigM.SignatureValue.Text = []string{"", "dmFsdWU=", " "}[r.Intn(3)]
+				if r.Intn(3) == 0 {
+					sigM.SignatureValue.XMLName.Local = "SignatureValue"
+				}
+				ki := "None"
+				if r.Intn(3) != 0 {
+					sigM.KeyInfo = &xml_dsig.KeyInfoType{}
+					var xs []string
+					for m := r.Intn(3); m > 0; m-- {
+						c := certPool[r.Intn(len(certPool))]
+						sigM.KeyInfo.X509Data = append(sigM.KeyInfo.X509Data, xml_dsig.X509DataType{X509Certificate: c})
+						xs = append(xs, c)
+					}
+					ki = "(Some " + coqgen.BytesList(xs) + ")"
+				}
+				sigC = fmt.Sprintf("(Some (%s, %s, %s))", coqgen.Bytes(sigM.SignatureValue.Id), coqgen.Bytes(sigM.SignatureValue.Text), ki)
+			}
+			sigParam := []string{"", "c2ln"}[r.Intn(2)]
+			binding := []string{provider.PostBinding, provider.RedirectBinding, "", "urn:other"}[r.Intn(4)]
+			pv, po, re, ce, cr := provider.VerifSignatureNecessary(idpM, spM, sigM, sigParam, binding)
+			run.Res.Evaluations++
+			run.Count(fmt.Sprintf("necessary provided=%v post=%v redirect=%v cert=%v cert-refused=%v", pv, po, re, ce, cr))
+			run.AddCase(id, fmt.Sprintf("KNec %s %s %s %s %s %s %s (%s, %s, %s, %s, %s)", coqgen.Z(int64(id)), coqgen.List(norms), optB(idpC), spC, sigC, coqgen.Bytes(sigParam), coqgen.Bytes(binding),
+				coqgen.Bool(pv), coqgen.Bool(po), coqgen.Bool(re), coqgen.Bool(ce), coqgen.Bool(cr)), map[string]interface{}{"idp": idpM, "sp": spM, "signature": sigM, "signature_parameter": sigParam, "binding": binding})
+			id++
+		}
+	}
 	// ---- the two Destination checks (hooks VerifDestinationOf*) against the generated Gallina
 	{
 		locPool := []string{"https://idp.example/SSO", "https://idp.example/SSO/", "https://idp.example/sso", "https://idp.example/attribute", "", "/SSO", "https://idp.example/with space", "https://idp.example/ü", "x"}
@@ -664,7 +776,7 @@ func Run(dir, tier string, seed int64) error {
 			}
 		}
 	}
-	run.Res.Rule = "provider configurations: every issuer kind (static with/without path and trailing slash, with port; host-derived with / without path and leading slash; Forwarded-derived) with the default endpoints; each of the six endpoints (metadata, certificate, callback, SSO, SLO, attribute) set to each of 8 shapes (custom path with/without leading slash, trailing slash, empty, '/', upper case, with space, external URL) and to 5 colliding paths, the others default; random combinations. Per configuration and request host: which handler answers each route (fingerprints taken from a default provider) vs the Coq first-match model; entityID and the five advertised locations vs the model; independently: each path-configured advertised location, with the issuer prefix stripped, must be answered by the handler of its service (configurations with colliding routes are counted separately and only compared with the model), the Issuer of a LogoutResponse and of a refused Response must equal the entityID, the KeyDescriptor certificate must equal the certificate endpoint's and verify an issued assertion, also after the signing key was replaced in storage; WantAuthRequestsSigned in 10 spellings x SP flag: advertised string = configured string, and advertised xs:true <=> an unsigned request (POST and Redirect) is refused; the exported Endpoint methods vs the generated Gallina on 198 (path, url, host) triples; per configuration, requests whose Destination is absent / the advertised SingleSignOnService location / that plus a slash / the advertised SingleLogoutService location / another path under the issuer / the bare route path: accepted iff absent or the advertised location; the path component of every distinct advertised location and of handcrafted URLs (net/url) vs the model's url_path; the two Destination check functions (verif hooks) on random endpoint lists and Destinations vs the generated Gallina and a literal-membership oracle. distinct = (issuer kind, metadata / SSO / attribute endpoint shape, routes distinct)."
+	run.Res.Rule = "provider configurations: every issuer kind (static with/without path and trailing slash, with port; host-derived with / without path and leading slash; Forwarded-derived) with the default endpoints; each of the six endpoints (metadata, certificate, callback, SSO, SLO, attribute) set to each of 8 shapes (custom path with/without leading slash, trailing slash, empty, '/', upper case, with space, external URL) and to 5 colliding paths, the others default; random combinations. Per configuration and request host: which handler answers each route (fingerprints taken from a default provider) vs the Coq first-match model; entityID and the five advertised locations vs the model; independently: each path-configured advertised location, with the issuer prefix stripped, must be answered by the handler of its service (configurations with colliding routes are counted separately and only compared with the model), the Issuer of a LogoutResponse and of a refused Response must equal the entityID, the KeyDescriptor certificate must equal the certificate endpoint's and verify an issued assertion, also after the signing key was replaced in storage; WantAuthRequestsSigned in 10 spellings x SP flag: advertised string = configured string, and advertised xs:true <=> an unsigned request (POST and Redirect) is refused; the exported Endpoint methods vs the generated Gallina on 198 (path, url, host) triples; per configuration, requests whose Destination is absent / the advertised SingleSignOnService location / that plus a slash / the advertised SingleLogoutService location / another path under the issuer / the bare route path: accepted iff absent or the advertised location; the path component of every distinct advertised location and of handcrafted URLs (net/url) vs the model's url_path; the validity-window check (verif hook) on 144 pairs of instants (absent, unparsable, other layouts, past, future) vs the generated Gallina with the clock and time.Parse as oracles; the four functions deciding whether a signature / certificate has to be checked (verif hook) on random descriptors, provider records, signatures and bindings (nil pointers included) vs the generated Gallina (Gen/Nec.v); the two Destination check functions (verif hooks) on random endpoint lists and Destinations vs the generated Gallina and a literal-membership oracle. distinct = (issuer kind, metadata / SSO / attribute endpoint shape, routes distinct)."
 	return run.Finish()
 }
 
